@@ -82,6 +82,8 @@ contract(TB, 'TypeBlocks._indices_to_contiguous_pairs',
             'implies(t > 0, last == at(indices, t - 1))',
             'implies(t > 0, len(bundle) == t - cut and len(bundle) >= 1)',
             'implies(t > 0, forall_in(0, len(bundle), lambda j: at(bundle, j) == at(indices, cut + j)[1] and at(indices, cut + j)[0] == at(indices, t - 1)[0]))',
+            # hint: names the pair (t-2, t) that the distinctness precondition must be instantiated with
+            'implies(t > 0 and len(bundle) >= 2, at(bundle, len(bundle) - 2) == at(indices, t - 2)[1] and at(indices, t - 2)[0] == at(indices, t - 1)[0])',
             f'implies(t > 0, ({_D} == 1 or {_D} == -1) and forall_in(0, len(bundle), lambda j: at(bundle, j) == at(bundle, 0) + j * {_D}))',
         ])},
     call_ghosts={'TypeBlocks._cols_to_slice': dict(d=_D, W='W')},
